@@ -134,14 +134,27 @@ Fixpoint process_x (c : config) (tmpl ls : list limiter) (cur : list arg) (pendi
       else (status_ok (res st), log st)
   | a :: rest =>
       match try_arg ls a with
-      | Acc ls' => process_x c tmpl ls' (cur ++ [a]) true rest input_err st
+      | Acc ls' =>
+          if c_replace c then
+            (* -I: the line is complete, its command is run now - not when the next line has been read *)
+            match exec c st (cur ++ [a]) with
+            | inr stop => stop
+            | inl st' => process_x c tmpl tmpl [] false rest input_err st'
+            end
+          else process_x c tmpl ls' (cur ++ [a]) true rest input_err st
       | Refuse _ =>
           if fatalf c ls a then (1, log st)
           else match (if pending then exec c st cur else inl st) with
                | inr stop => stop
                | inl st' =>
                    match try_arg tmpl a with
-                   | Acc ls' => process_x c tmpl ls' [a] true rest input_err st'
+                   | Acc ls' =>
+                       if c_replace c then
+                         match exec c st' [a] with
+                         | inr stop => stop
+                         | inl st'' => process_x c tmpl tmpl [] false rest input_err st''
+                         end
+                       else process_x c tmpl ls' [a] true rest input_err st'
                    | Refuse _ => (1, log st')
                    end
                end
